@@ -12,7 +12,9 @@ Graphs == <<
    [name |-> "fan",     F |-> <<"a", "b", "c">>,      Deps |-> [a |-> <<>>, b |-> <<"a">>, c |-> <<"a">>]],
    [name |-> "join",    F |-> <<"a", "b", "c">>,      Deps |-> [a |-> <<>>, b |-> <<>>, c |-> <<"a", "b">>]],
    [name |-> "diamond", F |-> <<"a", "b", "d">>,      Deps |-> [a |-> <<>>, b |-> <<"a">>, d |-> <<"a", "b">>]],
-   [name |-> "diamond2", F |-> <<"a", "b", "d">>,     Deps |-> [a |-> <<>>, b |-> <<"a">>, d |-> <<"b", "a">>]]
+   [name |-> "diamond2", F |-> <<"a", "b", "d">>,     Deps |-> [a |-> <<>>, b |-> <<"a">>, d |-> <<"b", "a">>]],
+   \* "r" has no free parameter of its own (a function of another dependence function only); the protocol is the same
+   [name |-> "relay",   F |-> <<"a", "r", "c">>,      Deps |-> [a |-> <<>>, r |-> <<"a">>, c |-> <<"r">>]]
 >>
 GraphNamed(n) == Graphs[CHOOSE i \in 1..Len(Graphs) : Graphs[i].name = n]
 
